@@ -322,6 +322,9 @@ def resolve_input(evs, fn):
                 continue
         if e.kind in ("call", "assign"):
             continue  # reserve(), push_back(), …
+        if e.kind == "check" and pend is not None:
+            res.append(e)   # `if (in.fail()) return;` between reading a count and using it does not separate the two
+            continue
         if pend is not None:
             res.append(pend)
             pend = None
@@ -442,6 +445,7 @@ def run(ctx):
     _error_protocol(ctx)
     _fresh_record_per_iteration(ctx)
     _flag_values_are_format(ctx)
+    _counts_are_tested_before_use(ctx)
 
 
 def _byte_copy(ctx):
@@ -1126,3 +1130,51 @@ def _flag_values_are_format(ctx):
             ctx.ob("R12.10", "%s::%s|value" % (en_name, k), ok, "%s:%s" % ((en.get("file") or "src/interrogatedb").replace("/repo/", ""), en.get("line", 0)),
                    "%s = %s (released format: %s)" % (k, have.get(k, "missing"), v))
     ctx.floor("R12.10", "flag enumerators of the file format", n, 60)
+
+
+def _counts_are_tested_before_use(ctx):
+    """R12.11: `int n; in >> n;` leaves n UNINITIALISED when the stream has already failed (the extraction does not even
+    start) - which is exactly the state after a truncated file ran out in the previous field.  A count read this way
+    may bound a loop or size a reserve()/resize() only behind `!in.fail()` (the reader's idiom, 10 of its 11 counts).
+    (F-C12c: InterrogateComponent::input used num_alt_names untested.)"""
+    db = ctx.db
+    ctx.rule("R12.11", "in the database reader, a local int declared without initialiser and filled by `in >> n` is used as a loop bound or as the argument of reserve()/resize() only where a call of fail() on the stream returned false after the extraction")
+    n = 0
+    for f in db.functions:
+        if "/interrogatedb/" not in f.file:
+            continue
+        uninit = {}
+        for y in f.walk():
+            if y.get("k") == "decls":
+                for dd in y["d"]:
+                    if dd.get("ct") in ("int", "unsigned int", "long", "unsigned long") and "init" not in dd:
+                        uninit[dd["d"]] = dd.get("n")
+        if not uninit:
+            continue
+        filled = {}
+        for c in f.walk():
+            if c.get("k") == "call" and callee_short(c) == "operator>>" and c.get("a"):
+                tgt = c["a"][-1] if "this" in c else (c["a"][1] if len(c["a"]) > 1 else None)
+                r = local_ref(tgt) if tgt is not None else None
+                if r is not None and r.get("d") in uninit:
+                    filled.setdefault(r["d"], []).append(c)
+        if not filled:
+            continue
+        ok_edges = G.edges_where(f, G.pred_false("fail"))
+        for d, exts in filled.items():
+            uses = []
+            for lp in f.walk():
+                if lp.get("k") in ("while", "for") and lp.get("c") is not None and any(z.get("k") == "ref" and z.get("d") == d for z in walk(lp["c"])):
+                    uses.append(("bounds a loop", lp["c"]))
+            for c in f.walk():
+                if c.get("k") == "call" and callee_short(c) in ("reserve", "resize") and c.get("a") and any(z.get("k") == "ref" and z.get("d") == d for z in walk(c["a"][0])):
+                    uses.append(("sizes %s()" % callee_short(c), c))
+                if c.get("k") == "new" and any(z.get("k") == "ref" and z.get("d") == d for z in walk(c)):
+                    uses.append(("sizes an allocation", c))
+            for what, u in uses:
+                n += 1
+                # the fail() test must lie between the extraction and the use: cutting its false edges makes the use unreachable
+                ok = bool(ok_edges) and G.gated(f, u, ok_edges) and all(not G.reaches_avoiding(f, e, [f.nodes[b.cond] for bid, b in f.cfg.blocks.items() if b.cond is not None and (bid, 1) in ok_edges or (bid, 0) in ok_edges], u) for e in exts)
+                ctx.ob("R12.11", "%s|%s|%s|tested-before-use" % (f.name, uninit[d], what.replace(" ", "-")), ok, f.loc(u),
+                       "`%s` %s %s the stream was tested with fail()" % (uninit[d], what, "after" if ok else "BEFORE / WITHOUT"))
+    ctx.floor("R12.11", "uses of counts read from the stream", n, 10)
